@@ -840,3 +840,6 @@ def workload(ctx):
     ctx.floor("records", 1000)
     ctx.floor("mode:rename", 500)
     ctx.floor("handler:UnidirectionalUnifier.map_commut_assoc", 500)
+
+
+RULE = RULE + '  Later additions: failing calls first in every worker process; alternating sum / product patterns 2-6 levels deep with left-over operands at each level; equal numbers of two kinds through the bridge.'
